@@ -23,6 +23,12 @@ add('C17', 'recorders on get_specific_event_code / get_implement_weight; closure
 add('C10', 'recorders on the seven sort/measure/classify functions; totality online, ordering on the list sorted by the real key, sorter permutation/stability monitor',
     'Codes generated from the syntax tree of the current patterns (ASCII and Unicode variants), table keys and customary codes through all seven functions; ordering clauses on the sorted list and 60k (quick) random pairs for the text key; seeded lists with repeated/missing disciplines for the sorter.',
     'Categories for the ordering clause come from the real family patterns; yard codes and ambiguous relay pairs unspecified.', 'C10')
+add('C11', 'recorders on the four junior scoring functions + exact Fraction/Decimal oracles; table monitors executing the public function at every tabulated threshold',
+    'Every table x tabulated age x marks around every threshold, below and beyond the table and seeded marks (whole grids in thorough) x all documented input forms, each observed call judged against rational arithmetic on the embedded table; ordering, holes, seam and reachability scans of every table row.',
+    'The published table is the table embedded in the repository; transcription errors that keep a table ordered are invisible.', 'C11')
+add('C05', 'recorders on all six scoring functions feeding an online sorted-map monotonicity monitor per table key, range monitor, Tyrving hand-vs-electronic pairing',
+    'Adjacent marks on the 0.01 grid for every table key of every system (whole grids where small, boundary and seeded windows for long road events; whole grids in thorough), every insertion compared with both neighbours, so any observed inversion is found regardless of presentation order.',
+    'Hungarian timed marks slower than the zero-point of the parabola are outside the property.', 'C05')
 _all = ['C%02d' % i for i in range(1, 20)]
 for p in _all:
     if p not in CHECKS:
